@@ -22,6 +22,7 @@ type c16Word struct {
 	Word   string            `json:"word"`
 	Expect string            `json:"expect"` // reject | accept
 	Names  map[string]string `json:"names,omitempty"`
+	Item   int               `json:"item,omitempty"` // index into c16Items
 }
 
 var c16Values = map[string]model.AV{":v": model.Str("a"), ":a": model.Str("a"), ":b": model.Str("b"), ":n": model.Num("1"), ":t": model.Str("S"), ":s": model.StrSet("x")}
@@ -30,6 +31,17 @@ var c16Values = map[string]model.AV{":v": model.Str("a"), ":a": model.Str("a"), 
 var c16CondPositions = []string{
 	"%s = :v", ":v = %s", "%s <> :v", "%s < :v", "attribute_exists(%s)", "attribute_not_exists(%s)", "begins_with(%s, :v)", "contains(%s, :v)",
 	"size(%s) > :n", "attribute_type(%s, :t)", "%s BETWEEN :a AND :b", "%s IN (:a, :b)", "%s.k = :v", "%s[0] = :v", "NOT %s = :v", "a = :v AND %s = :v", "(%s = :v)",
+	// operand positions behind another operand that may be missing from the item
+	"a BETWEEN %s AND :b", "a BETWEEN :a AND %s", "a IN (:a, %s)", "begins_with(a, %s)", "contains(a, %s)", "a = %s", "a < %s",
+	"a = :v OR %s = :v", "a <> :v OR attribute_exists(%s)", "NOT (a BETWEEN :a AND %s)",
+}
+
+// c16Items: the items every placement is evaluated against (detection must
+// not depend on which other attributes the item holds).
+var c16Items = []model.Item{
+	{"a": model.Str("a"), "m": model.Map(map[string]model.AV{"k": model.Str("a")})},
+	{},
+	{"a": model.Num("1"), "m": model.Str("x")},
 }
 var c16NestedCondPositions = []string{"m.%s = :v", "attribute_exists(m.%s)", "m.%s.k = :v"}
 var c16UpdatePositions = []string{
@@ -46,7 +58,7 @@ func caseVariants(w string) []string {
 }
 
 func runC16Word(c c16Word) *failure {
-	item := model.Item{"a": model.Str("a"), "m": model.Map(map[string]model.AV{"k": model.Str("a")})}
+	item := model.CloneItem(c16Items[c.Item%len(c16Items)])
 	vals := map[string]model.AV{}
 	for _, tok := range model.TokenTexts(c.Expr) {
 		if v, ok := c16Values[tok]; ok {
@@ -110,11 +122,15 @@ func exhaustiveReservedWords(t *testing.T, st *stats.Collector) {
 			}
 			for _, p := range all {
 				c := c16Word{Kind: p.kind, Expr: fmt.Sprintf(p.tmpl, v), Word: w, Expect: "reject"}
-				n++
-				st.Case(true, []string{c.Kind, c.Expr})
-				if f := runC16Word(c); f != nil {
-					failed(c, f)
+				for i := range c16Items {
+					c.Item = i
+					n++
+					st.Case(true, []string{c.Kind, c.Expr, fmt.Sprint(i)})
+					if f := runC16Word(c); f != nil {
+						failed(c, f)
+					}
 				}
+				c.Item = 0
 				// the same word behind an alias is legal
 				a := c16Word{Kind: p.kind, Expr: fmt.Sprintf(p.tmpl, "#w"), Word: w, Expect: "accept", Names: map[string]string{"#w": v}}
 				n++
@@ -152,7 +168,7 @@ func exhaustiveReservedWords(t *testing.T, st *stats.Collector) {
 	st.SetExtra("exhaustive_subspace", "every reserved word x every bare-name position x {UPPER, lower, mIxed} (plus alias and near-reserved controls)")
 }
 
-const ruleC16 = "two parts. (1) Exhaustive: every word of the reserved list (573) x every bare-name position (17 condition positions: either side of a comparator, each function's path argument, BETWEEN / IN operand, head of a dotted path, left of [i], under NOT / AND / parentheses; 9 update positions: SET / REMOVE / ADD / DELETE target, SET right-hand side, if_not_exists path, head of a nested target, second action, second clause; nested path elements unless the open finding F-RESNESTED applies) x {UPPER, lower, mIxed} must be rejected by interpreter.Language; the same word behind a #alias and near-reserved neighbours (WORD1, WORD_x, xWORD) must not be rejected as reserved. (2) rapid state machine through both SDK clients against the restriction oracle of the reference model: placeholder configurations (supplied vs used #names / :values with names that are prefixes of one another, unused, undefined, malformed keys), key-condition shapes (valid: hash equality alone or AND one sort-key condition of = < <= > >= BETWEEN begins_with, either operand order, parenthesised; invalid: missing hash equality, hash inequality, OR, NOT, non-key attribute, two sort conditions, <>, contains, size, IN), write requests that are neither / both put and delete, batch sizes 0-30 over 1-3 tables: reject -> validation-class error or documented panic and no state change; accept -> no validation error. Non-trivial = every enumerated placement, and generated requests rejected for exactly one reason or accepted while containing a near-miss; distinct = hash of the request."
+const ruleC16 = "two parts. (1) Exhaustive: every word of the reserved list (573) x every bare-name position (27 condition positions: either side of a comparator, each function's path and operand arguments, every BETWEEN / IN operand, head of a dotted path, left of [i], under NOT / AND / OR / parentheses, behind an operand that is missing from the item; 9 update positions: SET / REMOVE / ADD / DELETE target, SET right-hand side, if_not_exists path, head of a nested target, second action, second clause; nested path elements unless the open finding F-RESNESTED applies) x {UPPER, lower, mIxed} x three evaluated items (attributes present, absent, of another type) must be rejected by interpreter.Language; the same word behind a #alias and near-reserved neighbours (WORD1, WORD_x, xWORD) must not be rejected as reserved. (2) rapid state machine through both SDK clients against the restriction oracle of the reference model: placeholder configurations (supplied vs used #names / :values with names that are prefixes of one another, unused, undefined, malformed keys; carried by Scan, Put, Delete, Update, Get projections and Query, including the continuation page of a well-formed Query with the same expression texts), key-condition shapes (valid: hash equality alone or AND one sort-key condition of = < <= > >= BETWEEN begins_with, either operand order, parenthesised; invalid: missing hash equality, hash inequality, OR, NOT, non-key attribute, two sort conditions, <>, contains, size, IN), write requests that are neither / both put and delete, batch sizes 0-30 over 1-3 tables: reject -> validation-class error or documented panic and no state change; accept -> no validation error. Non-trivial = every enumerated placement, and generated requests rejected for exactly one reason or accepted while containing a near-miss; distinct = hash of the request."
 
 // TestC16 decides property C16.
 func TestC16(t *testing.T) {
@@ -222,6 +238,13 @@ func TestC16(t *testing.T) {
 				for _, v := range usedV {
 					op.Values[v] = model.Str("a")
 				}
+				cleanNames, cleanValues := map[string]string{}, map[string]model.AV{}
+				for k, v := range op.Names {
+					cleanNames[k] = v
+				}
+				for k, v := range op.Values {
+					cleanValues[k] = v
+				}
 				class := "placeholders-exact"
 				switch rapid.IntRange(0, 6).Draw(rt, "placeholderFault") {
 				case 0:
@@ -253,7 +276,26 @@ func TestC16(t *testing.T) {
 					op.Values[bad] = model.Str("a")
 					class = "malformed-value-key"
 				}
-				switch rapid.IntRange(0, 4).Draw(rt, "carrier") {
+				switch rapid.IntRange(0, 6).Draw(rt, "carrier") {
+				case 5, 6:
+					// Query; in half of the cases as the continuation page of a
+					// well-formed first page with the same expression texts
+					op.Kind, op.Filter, op.KeyCond = "Query", expr, s.Hash+" = :hkv"
+					op.Values[":hkv"] = c16KeyValue(w.m, s.Table, s.Hash)
+					cleanValues[":hkv"] = op.Values[":hkv"]
+					if rapid.Bool().Draw(rt, "continuationPage") {
+						first := op
+						first.Names, first.Values, first.Limit, first.Blind = cleanNames, cleanValues, 1, true
+						if len(first.Names) == 0 {
+							first.Names = nil
+						}
+						res, _, f := w.do(first)
+						fail(f)
+						if res.Err == "" && len(res.LastKey) > 0 {
+							op.StartKey, op.Limit = res.LastKey, 1
+							st.Class("query-continuation-page")
+						}
+					}
 				case 4:
 					// names used only by a projection expression count as used
 					op.Kind, op.Key, op.Values = "Get", g.key(rt), nil
